@@ -163,7 +163,7 @@ fn c12_softmax_len3_range() {
     kani::cover!(a[0] > 0.0 && a[1] > 0.0 && a[2] > 0.0 && a[0] < 1.0);
 }
 
-// @unit class=bounded tier=quick mem=light bound="len=3, all finite f32; order clause, division axiomatised (C12/helpers.rs)" timeout=900 fns=linfa_logistic::softmax_inplace
+// @unit class=bounded tier=thorough mem=light bound="len=3, all finite f32; order clause, division axiomatised (C12/helpers.rs)" timeout=1800 fns=linfa_logistic::softmax_inplace
 #[kani::proof]
 #[kani::unwind(9)]
 #[kani::stub(alloc::fmt::format, fmt_stub)]
@@ -228,7 +228,7 @@ fn c12_binary_check(xs: &[f32], w: f32, b: f32, thr: f32) -> (Array1<f32>, Array
     (probs, y)
 }
 
-// @unit class=bounded tier=quick mem=heavy bound="rows=1, 1 feature, all finite f32 weights/inputs, threshold in [0,1]; division axiomatised (C12/helpers.rs)" timeout=900 fns=linfa_logistic::FittedLogisticRegression::predict_inplace,linfa_logistic::FittedLogisticRegression::predict_probabilities,linfa_logistic::logistic
+// @unit class=bounded tier=thorough mem=heavy bound="rows=1, 1 feature, all finite f32 weights/inputs, threshold in [0,1]; division axiomatised (C12/helpers.rs)" timeout=1500 fns=linfa_logistic::FittedLogisticRegression::predict_inplace,linfa_logistic::FittedLogisticRegression::predict_probabilities,linfa_logistic::logistic
 #[kani::proof]
 #[kani::unwind(9)]
 #[kani::stub(alloc::fmt::format, fmt_stub)]
@@ -255,7 +255,7 @@ fn c12_binary_decision_rows1() {
     kani::cover!(x0 * w == f32::INFINITY);
 }
 
-// @unit class=bounded tier=thorough mem=heavy bound="rows=2, 1 feature, integer-valued inputs/weights in [-8,8], threshold in [0,1]; division axiomatised (C12/helpers.rs)" timeout=1500 fns=linfa_logistic::FittedLogisticRegression::predict_inplace,linfa_logistic::FittedLogisticRegression::predict_probabilities
+// @unit class=bounded tier=quick mem=heavy bound="rows=2, 1 feature, integer-valued inputs/weights in [-8,8], threshold in [0,1]; division axiomatised (C12/helpers.rs)" timeout=900 fns=linfa_logistic::FittedLogisticRegression::predict_inplace,linfa_logistic::FittedLogisticRegression::predict_probabilities
 #[kani::proof]
 #[kani::unwind(9)]
 #[kani::stub(alloc::fmt::format, fmt_stub)]
@@ -300,12 +300,28 @@ fn c12_multi_check(xs: &[f32], w: &[f32], b: &[f32], classes: &[usize]) -> Array
     y
 }
 
-// @unit class=bounded tier=quick mem=heavy bound="rows=1, 1 feature, 3 classes, integer-valued inputs/weights in [-8,8]; division axiomatised (C12/helpers.rs)" timeout=1200 fns=linfa_logistic::MultiFittedLogisticRegression::predict_inplace,linfa_logistic::MultiFittedLogisticRegression::predict_probabilities,linfa_logistic::softmax_inplace
+// Dense matrix product: ndarray sends every f32 `Array2.dot(Array2)` to the `matrixmultiply` kernel, whose CPU-feature
+// detection is inline asm (unsupported by Kani).  In the two multinomial decision units ndarray's private
+// `mat_mul_general` (documented "C <- alpha A B + beta C") is replaced by this textbook triple loop -- a TRUSTED MODEL of
+// the kernel, listed with the stubs of the evidence.
+fn c12_mat_mul<A: ndarray::LinalgScalar>(alpha: A, lhs: &ndarray::ArrayView2<'_, A>, rhs: &ndarray::ArrayView2<'_, A>, beta: A, c: &mut ndarray::ArrayViewMut2<'_, A>) {
+    let ((m, k), (_, n)) = (lhs.dim(), rhs.dim());
+    for i in 0..m {
+        for j in 0..n {
+            let mut acc = A::zero();
+            for l in 0..k { acc = acc + lhs[(i, l)] * rhs[(l, j)]; }
+            c[(i, j)] = if beta.is_zero() { alpha * acc } else { beta * c[(i, j)] + alpha * acc };
+        }
+    }
+}
+
+// @unit class=bounded tier=thorough mem=heavy bound="rows=1, 1 feature, 3 classes, integer-valued inputs/weights in [-8,8]; division axiomatised (C12/helpers.rs), mat-mul kernel modelled" timeout=1200 fns=linfa_logistic::MultiFittedLogisticRegression::predict_inplace,linfa_logistic::MultiFittedLogisticRegression::predict_probabilities,linfa_logistic::softmax_inplace
 #[kani::proof]
 #[kani::unwind(9)]
 #[kani::stub(alloc::fmt::format, fmt_stub)]
 #[kani::stub(f32::exp, ghost_exp32)]
 #[kani::stub(<f32 as core::ops::Div<f32>>::div, c12_div32)]
+#[kani::stub(ndarray::linalg::impl_linalg::mat_mul_general, c12_mat_mul)]
 fn c12_multi_decision_rows1_k3() {
     let xs = [c12_sf(-8, 8)];
     let w = [c12_sf(-8, 8), c12_sf(-8, 8), c12_sf(-8, 8)];
@@ -316,12 +332,13 @@ fn c12_multi_decision_rows1_k3() {
     kani::cover!(y[0] == 33);
 }
 
-// @unit class=bounded tier=thorough mem=heavy bound="rows=2, 1 feature, 2 classes, integer-valued inputs/weights in [-8,8]; division axiomatised (C12/helpers.rs)" timeout=1800 fns=linfa_logistic::MultiFittedLogisticRegression::predict_inplace,linfa_logistic::MultiFittedLogisticRegression::predict_probabilities,linfa_logistic::softmax_inplace
+// @unit class=bounded tier=thorough mem=heavy bound="rows=2, 1 feature, 2 classes, integer-valued inputs/weights in [-8,8]; division axiomatised (C12/helpers.rs), mat-mul kernel modelled" timeout=1800 fns=linfa_logistic::MultiFittedLogisticRegression::predict_inplace,linfa_logistic::MultiFittedLogisticRegression::predict_probabilities,linfa_logistic::softmax_inplace
 #[kani::proof]
 #[kani::unwind(9)]
 #[kani::stub(alloc::fmt::format, fmt_stub)]
 #[kani::stub(f32::exp, ghost_exp32)]
 #[kani::stub(<f32 as core::ops::Div<f32>>::div, c12_div32)]
+#[kani::stub(ndarray::linalg::impl_linalg::mat_mul_general, c12_mat_mul)]
 fn c12_multi_decision_rows2_k2() {
     let xs = [c12_sf(-8, 8), c12_sf(-8, 8)];
     let w = [c12_sf(-8, 8), c12_sf(-8, 8)];
@@ -329,4 +346,20 @@ fn c12_multi_decision_rows2_k2() {
     let y = c12_multi_check(&xs, &w, &b, &[11, 22]);
     kani::cover!(y[0] == 11 && y[1] == 22);
     kani::cover!(y[0] == 22 && y[1] == 11);
+}
+
+// @unit class=bounded tier=quick mem=heavy bound="rows=1, 1 feature, 2 classes, integer-valued inputs/weights in [-8,8]; division axiomatised (C12/helpers.rs), mat-mul kernel modelled" timeout=900 fns=linfa_logistic::MultiFittedLogisticRegression::predict_inplace,linfa_logistic::MultiFittedLogisticRegression::predict_probabilities,linfa_logistic::softmax_inplace
+#[kani::proof]
+#[kani::unwind(9)]
+#[kani::stub(alloc::fmt::format, fmt_stub)]
+#[kani::stub(f32::exp, ghost_exp32)]
+#[kani::stub(<f32 as core::ops::Div<f32>>::div, c12_div32)]
+#[kani::stub(ndarray::linalg::impl_linalg::mat_mul_general, c12_mat_mul)]
+fn c12_multi_decision_rows1_k2() {
+    let xs = [c12_sf(-8, 8)];
+    let w = [c12_sf(-8, 8), c12_sf(-8, 8)];
+    let b = [c12_sf(-8, 8), c12_sf(-8, 8)];
+    let y = c12_multi_check(&xs, &w, &b, &[11, 22]);
+    kani::cover!(y[0] == 11);
+    kani::cover!(y[0] == 22);
 }
